@@ -3,6 +3,8 @@ use vcommon::Args;
 
 mod c01;
 mod c02;
+mod c22;
+mod c23;
 mod c29;
 mod corrupt;
 
@@ -12,6 +14,8 @@ fn main() {
     match args.stage.as_str() {
         "c01" => c01::run(&args),
         "c02" => c02::run(&args),
+        "c22" => c22::run(&args),
+        "c23" => c23::run(&args),
         "c29" => c29::run(&args),
         s => {
             eprintln!("unknown stage {s}");
